@@ -203,7 +203,7 @@ def _symbolic_error_events(rec):
     return norm
 
 
-def _opaque_np(real_np, rec):
+def _opaque_np(real_np, rec, extra=()):
     """numpy as the solver module sees it during the cut step: norms (convergence measures), abs and maximum (their
     scaling) return arbitrary symbolic values, so that the convergence tests fork without path explosion"""
 
@@ -222,6 +222,9 @@ def _opaque_np(real_np, rec):
         abs = absolute = maximum = staticmethod(fresh_like)
 
         def __getattr__(self, name):
+            if name in extra:
+                rec.n += 1
+                return lambda *a, **kw: S.var(f"opq{rec.n}")
             return getattr(real_np, name)
 
     return NP()
